@@ -61,6 +61,15 @@ def setup():
     _ready = True
 
 
+def renew():
+    """A fresh report and sandbox.  The old sandbox stays alive behind the proxies made from it, which remain valid;
+    used by the history streams to keep the sandbox's list of past executions short (pedal's context message for a
+    result made before the innermost open CommandBlock formats the WHOLE list up to that result)."""
+    global _ready
+    _ready = False
+    setup()
+
+
 def clear_report():
     MAIN_REPORT.feedback.clear()
     MAIN_REPORT.ignored_feedback.clear()
